@@ -24,6 +24,7 @@ use std::io::{BufRead, Write};
 pub struct Program {
     pub name: String,
     pub init: (usize, usize, usize), // cap, start, nprod
+    pub pipe: bool,                  // the pipeline.rs queue pair instead of the track pair
     pub prods: Vec<Vec<Op>>,
     pub cons: Vec<Op>,
     pub stop: Vec<Op>,
@@ -42,6 +43,7 @@ impl Program {
 }
 
 pub struct Outcome {
+    pub pipe: bool,
     pub input: String,
     pub output: String,
     pub fails: Vec<(String, String)>,
@@ -50,18 +52,17 @@ pub struct Outcome {
     pub blocked_tokens: usize,
 }
 
-fn init_text(i: &(usize, usize, usize)) -> String { format!("init,{},{},{}", i.0, i.1, i.2) }
+fn init_text(i: &(usize, usize, usize), pipe: bool) -> String { format!("{},{},{},{}", if pipe { "pinit" } else { "init" }, i.0, i.1, i.2) }
 
-/// `<producers>` part of the signature `sched:<producers>:<violated invariant>`; runs that start the
-/// ring indices just below the usize wrap-around with a capacity that does not divide 2^64 are a
-/// class of their own (known finding: the slot index `tail % capacity` jumps at the wrap).
+/// `<producers>` part of the signature `sched:<producers>:<violated invariant>`
 pub fn sig_tag(i: &(usize, usize, usize)) -> String {
-    if !i.0.is_power_of_two() && i.1 >= usize::MAX - 4096 { "wrap-npot".into() } else { i.2.to_string() }
+    i.2.to_string()
 }
 
 /// Property oracles on one finished schedule (independent of the model).
 fn oracles(case: Case, nprod_sig: &str, fails: &mut Vec<(String, String)>) {
-    let sig = |what: &str| format!("sched:{}:{}", nprod_sig, what);
+    let pfx = if case.is_pipe() { "pipe" } else { "sched" };
+    let sig = |what: &str| format!("{}:{}:{}", pfx, nprod_sig, what);
     let recvd = case.received();
     let mut last: std::collections::BTreeMap<u64, u64> = Default::default();
     let mut seen: std::collections::BTreeSet<(u64, u64)> = Default::default();
@@ -95,8 +96,8 @@ fn oracles(case: Case, nprod_sig: &str, fails: &mut Vec<(String, String)>) {
 }
 
 /// Execute an explicit label list.
-pub fn exec_labels(init: (usize, usize, usize), labels: &[Label]) -> Outcome {
-    let mut case = Case::new(Init { cap: init.0, start: init.1, nprod: init.2 });
+pub fn exec_labels(init: (usize, usize, usize), pipe: bool, labels: &[Label]) -> Outcome {
+    let mut case = Case::new(Init { cap: init.0, start: init.1, nprod: init.2, pipe });
     let mut toks = vec![];
     let (mut pre, mut blocked) = (0, 0);
     let mut prev: Option<Tid> = None;
@@ -110,14 +111,14 @@ pub fn exec_labels(init: (usize, usize, usize), labels: &[Label]) -> Outcome {
     toks.push(case.end_token());
     let mut fails = vec![];
     oracles(case, &sig_tag(&init), &mut fails);
-    Outcome { input: format!("{} {}", init_text(&init), labels.iter().map(|l| l.text()).collect::<Vec<_>>().join(" ")),
+    Outcome { pipe, input: format!("{} {}", init_text(&init, pipe), labels.iter().map(|l| l.text()).collect::<Vec<_>>().join(" ")),
               output: toks.join(" "), fails, preemptions: pre, steps: labels.len(), blocked_tokens: blocked }
 }
 
 /// Run a program under a chooser: at each point the chooser sees the enabled labels (and the
 /// currently blocked ones) and picks; the run ends when nothing is enabled.
 fn exec_program(prog: &Program, choose: &mut dyn FnMut(usize, &[Label], &[Label]) -> Label) -> Outcome {
-    let mut case = Case::new(Init { cap: prog.init.0, start: prog.init.1, nprod: prog.init.2 });
+    let mut case = Case::new(Init { cap: prog.init.0, start: prog.init.1, nprod: prog.init.2, pipe: prog.pipe });
     let mut next_op: std::collections::BTreeMap<Tid, usize> = Default::default();
     let mut labels = vec![];
     let mut toks = vec![];
@@ -153,15 +154,17 @@ fn exec_program(prog: &Program, choose: &mut dyn FnMut(usize, &[Label], &[Label]
     let mut fails = vec![];
     // a program that cannot finish: some thread is still inside an operation and nothing is enabled
     let unfinished = prog.tids().iter().any(|t| matches!(case.state(*t), WState::Parked(_)));
-    if unfinished { fails.push((format!("sched:{}:deadlock", sig_tag(&prog.init)), "threads parked at blocking points, none enabled".into())); }
+    if unfinished { fails.push((format!("{}:{}:deadlock", if prog.pipe { "pipe" } else { "sched" }, sig_tag(&prog.init)), "threads parked at blocking points, none enabled".into())); }
     oracles(case, &sig_tag(&prog.init), &mut fails);
-    Outcome { input: format!("{} {}", init_text(&prog.init), labels.iter().map(|l| l.text()).collect::<Vec<_>>().join(" ")),
+    Outcome { pipe: prog.pipe, input: format!("{} {}", init_text(&prog.init, prog.pipe), labels.iter().map(|l| l.text()).collect::<Vec<_>>().join(" ")),
               output: toks.join(" "), fails, preemptions: pre, steps: labels.len(), blocked_tokens: blocked_n }
 }
 
 /// All interleavings (depth-first, re-executing from scratch), at most `limit`.
-fn explore_exhaustive(prog: &Program, limit: usize, sink: &mut dyn FnMut(Outcome)) -> (usize, bool) {
-    let mut choices: Vec<usize> = vec![];
+/// `prefix`: explore only the subtree below these first choices (used to split a big tree over
+/// several child processes; the subtrees of all prefixes of one length partition the tree).
+fn explore_exhaustive(prog: &Program, limit: usize, prefix: &[usize], sink: &mut dyn FnMut(Outcome)) -> (usize, bool) {
+    let mut choices: Vec<usize> = prefix.to_vec();
     let mut n = 0;
     loop {
         let mut widths: Vec<usize> = vec![];
@@ -177,6 +180,7 @@ fn explore_exhaustive(prog: &Program, limit: usize, sink: &mut dyn FnMut(Outcome
         // backtrack
         let mut full: Vec<usize> = (0..widths.len()).map(|d| if d < pre.len() { pre[d] } else { 0 }).collect();
         loop {
+            if full.len() <= prefix.len() { return (n, true); }
             match full.pop() {
                 None => return (n, true),
                 Some(c) => {
@@ -215,12 +219,13 @@ pub fn programs(thorough: bool, rng: &mut Rng) -> Vec<(Program, usize, usize)> {
     // (program, exhaustive limit (0 = none), random count)
     let mut v: Vec<(Program, usize, usize)> = vec![];
     let p = |name: &str, init: (usize, usize, usize), prods: Vec<Vec<Op>>, cons: Vec<Op>, stop: Vec<Op>| Program {
-        name: name.into(), init, prods, cons, stop };
-    let k = if thorough { 8 } else { 1 };
+        name: name.into(), init, pipe: name.starts_with("pipe-"), prods, cons, stop };
+    let k = if thorough { 5 } else { 1 };
     // exhaustive (all interleavings) only where the whole tree fits the tier; random walks otherwise
-    let big = if thorough { 60_000 } else { 0 };
+    let big = if thorough { 40_000 } else { 0 };
     // one producer, one consumer
-    v.push((p("1p-send-recv", (1, 0, 1), vec![vec![s1(1)]], vec![Op::Recv], vec![]), big, 700 * k));
+    // the complete send ‖ recv interleaving tree (14 586 schedules) is part of BOTH tiers
+    v.push((p("1p-send-recv", (1, 0, 1), vec![vec![s1(1)]], vec![Op::Recv], vec![]), 60_000, 0));
     v.push((p("1p-try-recv", (2, 0, 1), vec![vec![Op::TrySend(1)]], vec![Op::Recv], vec![]), big, 300 * k));
     v.push((p("1p-full-dropoldest", (1, 0, 1), vec![vec![s1(1), s1(2)]], vec![Op::Recv], vec![]), 0, 700 * k));
     v.push((p("1p-try-full", (1, 0, 1), vec![vec![Op::TrySend(1), Op::TrySend(2)]], vec![Op::Recv], vec![]), 0, 400 * k));
@@ -237,16 +242,28 @@ pub fn programs(thorough: bool, rng: &mut Rng) -> Vec<(Program, usize, usize)> {
     v.push((p("2p-send-send-recv", (2, 0, 2), vec![vec![s1(1)], vec![s1(1)]], vec![Op::Recv], vec![]), 0, 500 * k));
     v.push((p("2p-cap1-overflow", (1, 0, 2), vec![vec![s1(1), s1(2)], vec![Op::TrySend(1), s1(2)]], vec![Op::Recv, Op::Recv], vec![]), 0, 500 * k));
     v.push((p("2p-clone-drop", (2, 0, 1), vec![vec![Op::CloneTo(1), s1(1), Op::DropSrc], vec![s1(1), Op::DropSrc]], vec![Op::Recv, Op::Recv, Op::Recv], vec![]), 0, 500 * k));
+    v.push((p("4p-cap2", (2, 0, 4), vec![vec![s1(1), s1(2)], vec![Op::TrySend(1), s1(2)], vec![Op::Send(vec![1, 2])], vec![s1(1), Op::DropSrc]], vec![Op::Recv, Op::Recv, Op::Recv], vec![]), 0, 300 * k));
     v.push((p("3p-mixed", (3, 0, 3), vec![vec![Op::Send(vec![1, 2])], vec![Op::TrySend(1), Op::DropSrc], vec![s1(1), s1(2)]], vec![Op::Recv, Op::Recv], vec![Op::Stop]), 0, 300 * k));
     // index wrap-around of the ring (power-of-two capacity: harmless; see NOTES for capacity 3)
     v.push((p("wrap-cap2", (2, usize::MAX - 1, 1), vec![vec![Op::Send(vec![1, 2, 3])]], vec![Op::Recv, Op::Recv], vec![]), 0, 100 * k));
-    // KNOWN FINDING (wrap-npot): capacity 3 across the index wrap-around — one sequential schedule
-    v.push((p("wrap-npot-cap3", (3, usize::MAX - 2, 1), vec![vec![s1(1), s1(2), s1(3), s1(4)]], vec![Op::Recv, Op::Recv, Op::Recv, Op::Recv], vec![]), 0, 0));
+    // regression for the fixed finding `wrap-npot`: capacity 3 across the index wrap-around (sequential + random)
+    v.push((p("wrap-npot-cap3", (3, usize::MAX - 2, 1), vec![vec![s1(1), s1(2), s1(3), s1(4)]], vec![Op::Recv, Op::Recv, Op::Recv, Op::Recv], vec![]), 0, 150 * k));
+    v.push((p("wrap-cap5-2p", (5, usize::MAX - 3, 2), vec![vec![Op::Send(vec![1, 2, 3])], vec![s1(1), Op::TrySend(2), s1(3)]], vec![Op::Recv, Op::Recv, Op::Recv], vec![]), 0, 150 * k));
+    // pipeline.rs queue pair (SampleQueueSender shared by reference / SampleQueueReceiver)
+    v.push((p("pipe-send-recv", (1, 0, 1), vec![vec![s1(1)]], vec![Op::Recv], vec![]), big, 500 * k));
+    v.push((p("pipe-full-dropoldest", (1, 0, 1), vec![vec![s1(1), s1(2)]], vec![Op::Recv], vec![]), 0, 400 * k));
+    v.push((p("pipe-send-drop-recv", (2, 0, 1), vec![vec![s1(1), Op::DropSrc]], vec![Op::Recv, Op::Recv], vec![]), 0, 700 * k));
+    v.push((p("pipe-drop-recv", (1, 0, 1), vec![vec![Op::DropSrc]], vec![Op::Recv], vec![]), 1000, 0));
+    v.push((p("pipe-2p-send-send", (2, 0, 2), vec![vec![s1(1)], vec![s1(1)]], vec![], vec![]), 1000, 0));
+    v.push((p("pipe-2p-try-send", (1, 0, 2), vec![vec![Op::TrySend(1)], vec![s1(1)]], vec![], vec![]), 1000, 0));
+    v.push((p("pipe-2p-overflow", (1, 0, 2), vec![vec![s1(1), s1(2), Op::DropSrc], vec![Op::TrySend(1), s1(2), Op::DropSrc]], vec![Op::Recv, Op::Recv, Op::Recv], vec![]), 0, 600 * k));
+    v.push((p("pipe-3p-cap3", (3, 0, 3), vec![vec![Op::Send(vec![1, 2])], vec![Op::TrySend(1), Op::DropSrc], vec![s1(1), s1(2)]], vec![Op::Recv, Op::Recv], vec![]), 0, 300 * k));
+    v.push((p("pipe-recvdrop", (2, 0, 1), vec![vec![s1(1), s1(2), Op::TrySend(3)]], vec![Op::Recv, Op::DropRecv], vec![]), 0, 300 * k));
     // random programs
     let nrand = if thorough { 120 } else { 20 };
     for i in 0..nrand {
-        let cap = *rng.pick(&[1usize, 1, 2, 2, 3, 4, 5, 8]);
-        let nprod = rng.range(1, 3) as usize;
+        let cap = *rng.pick(&[1usize, 1, 2, 2, 3, 4, 5, 8, 13, 16, 33, 64]);
+        let nprod = rng.range(1, 4) as usize;
         let mut prods = vec![];
         for _ in 0..nprod {
             let mut ops = vec![];
@@ -266,7 +283,7 @@ pub fn programs(thorough: bool, rng: &mut Rng) -> Vec<(Program, usize, usize)> {
         while prods.len() < MAX_PROD { prods.push(vec![s1(50)]); } // only reachable through a clone
         let cons = (0..rng.range(0, 3)).map(|_| Op::Recv).collect();
         let stop = if rng.chance(1, 4) { vec![Op::Stop] } else { vec![] };
-        let start = if cap.is_power_of_two() && rng.chance(1, 5) { usize::MAX - rng.below(3) as usize } else { 0 };
+        let start = if rng.chance(1, 4) { usize::MAX - rng.below(6) as usize } else { 0 };
         v.push((p(&format!("rand{i}"), (cap, start, nprod), prods, cons, stop), 0, if thorough { 60 } else { 25 }));
     }
     v
@@ -280,16 +297,18 @@ fn child_main(args: &Args) {
     let mut out = out.lock();
     let job = std::env::var("VH_C20_CHILD").unwrap();
     let emit = |o: Outcome, out: &mut dyn Write| {
-        let _ = writeln!(out, "CASE {}\t{}\t{}\t{}\t{}", o.input, o.output, o.preemptions, o.steps, o.blocked_tokens);
+        let _ = writeln!(out, "CASE {}\t{}\t{}\t{}\t{}\t{}", o.input, o.output, o.preemptions, o.steps, o.blocked_tokens, if o.pipe { "psched" } else { "sched" });
         for (s, d) in o.fails { let _ = writeln!(out, "FAIL {}\t{}\t{}", s, o.input, d); }
     };
     if let Some(rest) = job.strip_prefix("replay:") {
-        let (init, labels) = parse_case(rest).expect("bad case text");
+        let (init, pipe, labels) = parse_case(rest).expect("bad case text");
         let _ = writeln!(out, "BEGIN {rest}");
         let _ = out.flush();
-        emit(exec_labels(init, &labels), &mut out);
+        emit(exec_labels(init, pipe, &labels), &mut out);
     } else if let Some(idx) = job.strip_prefix("prog:") {
-        let idx: usize = idx.parse().unwrap();
+        let mut f = idx.split(':');
+        let idx: usize = f.next().unwrap().parse().unwrap();
+        let part: Option<(usize, usize)> = f.next().and_then(|p| { let (a, n) = p.split_once('/')?; Some((a.parse().ok()?, n.parse().ok()?)) });
         let mut rng = Rng::new(args.seed);
         let progs = programs(args.tier_thorough, &mut rng);
         let (prog, exh, nrand) = &progs[idx];
@@ -299,17 +318,28 @@ fn child_main(args: &Args) {
             let seq = "p0:s1 p0 p0 p0 p0 p0 p0 p0 p0:s2 p0 p0 p0 p0 p0 p0 p0 p0:s3 p0 p0 p0 p0 p0 p0 p0 c:r c c c c c c c c \
                        p0:s4 p0 p0 p0 p0 p0 p0 p0 c:r c c c c c c c c c:r c c c c c c c c c:r c c c c c c c c";
             let labels: Vec<Label> = seq.split_whitespace().map(|t| Label::parse(t).unwrap()).collect();
-            let input = format!("{} {}", init_text(&prog.init), labels.iter().map(|l| l.text()).collect::<Vec<_>>().join(" "));
+            let input = format!("{} {}", init_text(&prog.init, prog.pipe), labels.iter().map(|l| l.text()).collect::<Vec<_>>().join(" "));
             let _ = writeln!(out, "BEGIN {input}");
             let _ = out.flush();
-            emit(exec_labels(prog.init, &labels), &mut out);
+            emit(exec_labels(prog.init, prog.pipe, &labels), &mut out);
         }
         if *exh > 0 {
-            let (n, complete) = explore_exhaustive(prog, *exh, &mut |o| emit(o, &mut out));
-            let _ = writeln!(out, "COUNT exhaustive_schedules:{} {}", prog.name, n);
-            let _ = writeln!(out, "COUNT exhaustive_complete:{} {}", prog.name, complete as u8);
+            // optional `:part/nparts` — this child explores the subtrees of the 3-choice prefixes
+            // (both threads are enabled during the first three steps) whose number ≡ part (mod nparts)
+            let prefixes: Vec<Vec<usize>> = match part {
+                None => vec![vec![]],
+                Some((a, n)) => (0..8usize).filter(|x| x % n == a).map(|x| vec![x & 1, (x >> 1) & 1, (x >> 2) & 1]).collect(),
+            };
+            let (mut total, mut all) = (0, true);
+            for pre in &prefixes {
+                let (n, complete) = explore_exhaustive(prog, *exh, pre, &mut |o| emit(o, &mut out));
+                total += n;
+                all &= complete;
+            }
+            let _ = writeln!(out, "COUNT exhaustive_schedules:{} {}", prog.name, total);
+            let _ = writeln!(out, "COUNT exhaustive_incomplete_parts:{} {}", prog.name, (!all) as u8);
         }
-        if *nrand > 0 {
+        if *nrand > 0 && part.map(|p| p.0 == 0).unwrap_or(true) {
             let mut r = Rng::new(args.seed ^ (idx as u64 + 1).wrapping_mul(0x9E37_79B9));
             explore_random(prog, *nrand, &mut r, &mut |o| emit(o, &mut out));
             let _ = writeln!(out, "COUNT random_schedules:{} {}", prog.name, nrand);
@@ -375,7 +405,9 @@ fn absorb(run: &mut Run, res: &ChildResult, nprod_sig: &str) {
             let f: Vec<&str> = c.split('\t').collect();
             if f.len() < 5 { continue; }
             let pre: usize = f[2].parse().unwrap_or(0);
-            run.case("sched", f[0], f[1], pre > 0);
+            let stream = if f.get(5) == Some(&"psched") { "psched" } else { "sched" };
+            run.case(stream, f[0], f[1], pre > 0);
+            if stream == "psched" { run.count("pipeline_schedules"); }
             run.count("schedules");
             run.count_n("schedule_steps", f[3].parse().unwrap_or(0));
             run.count_n("blocked_steps_granted", f[4].parse().unwrap_or(0));
@@ -393,18 +425,19 @@ fn absorb(run: &mut Run, res: &ChildResult, nprod_sig: &str) {
         }
     }
     if !res.ok {
-        run.fail(&format!("sched:{}:crash-{}", nprod_sig, res.status), &res.last_begin,
+        run.fail(&format!("{}:{}:crash-{}", if res.last_begin.contains("pinit,") || res.last_begin.contains("pipe-") { "pipe" } else { "sched" }, nprod_sig, res.status), &res.last_begin,
                  "child process executing the real code died (memory error / abort / hang)");
     }
 }
 
-pub fn parse_case(s: &str) -> Option<((usize, usize, usize), Vec<Label>)> {
+pub fn parse_case(s: &str) -> Option<((usize, usize, usize), bool, Vec<Label>)> {
     let mut it = s.split_whitespace();
     let ini: Vec<&str> = it.next()?.split(',').collect();
-    if ini.len() != 4 || ini[0] != "init" { return None; }
+    if ini.len() != 4 || (ini[0] != "init" && ini[0] != "pinit") { return None; }
+    let pipe = ini[0] == "pinit";
     let init = (ini[1].parse().ok()?, ini[2].parse().ok()?, ini[3].parse().ok()?);
     let labels = it.map(Label::parse).collect::<Option<Vec<_>>>()?;
-    Some((init, labels))
+    Some((init, pipe, labels))
 }
 
 pub fn run(args: &Args) {
@@ -424,12 +457,17 @@ pub fn run(args: &Args) {
     let mut rng = Rng::new(args.seed);
     let progs = programs(args.tier_thorough, &mut rng);
     // children in parallel, a few at a time
-    let par = 4;
+    // jobs: one child per program; a big exhaustive tree is split over 4 children
+    let mut jobs: Vec<(usize, String)> = vec![];
+    for (i, (_, exh, _)) in progs.iter().enumerate() {
+        if *exh >= 10_000 { for a in 0..4 { jobs.push((i, format!("prog:{i}:{a}/4"))); } } else { jobs.push((i, format!("prog:{i}"))); }
+    }
+    let par = 6;
     let mut idx = 0;
-    while idx < progs.len() {
-        let hi = (idx + par).min(progs.len());
+    while idx < jobs.len() {
+        let hi = (idx + par).min(jobs.len());
         let results: Vec<(usize, ChildResult)> = std::thread::scope(|sc| {
-            let hs: Vec<_> = (idx..hi).map(|i| sc.spawn(move || (i, run_child(&format!("prog:{i}"), args, 900)))).collect();
+            let hs: Vec<_> = jobs[idx..hi].iter().map(|(i, j)| sc.spawn(move || (*i, run_child(j, args, 900)))).collect();
             hs.into_iter().map(|h| h.join().unwrap()).collect()
         });
         for (i, res) in results { absorb(&mut run, &res, &sig_tag(&progs[i].0.init)); }
